@@ -10,7 +10,7 @@ FULL STATEMENT (all grammars the spec reader accepts, all finite inputs, the var
 
 (`FullStatement` below.)  It is PROVED for the parser as it is (`C06_parse_terminates : FullStatement Variant.now`,
 `C06_generated_variant_terminates` for the variant the translator reads from the source on every run), for the
-model `Model/Earley.lean` (one-shot COMPLETE parse; the machine includes the loop that ends `predict` — /repo
+model `Model/Earley.lean` (one-shot COMPLETE parse — prefix mode: see below; the machine includes the loop that ends `predict` — /repo
 1d73281f —, the open-ended `{n,}` tail — b48dd899 —, the repetition shortcut, and the admission rule of the code:
 duplicate ⇔ same item AND same children, with the covering cut of /repo 73e5ffe3).  No `NoEpsCycle`-style hypothesis,
 no fuel in the statement: the step bound `stepBoundN c (chartBound c) + 1` is a function of the configuration.
@@ -41,7 +41,7 @@ no fuel in the statement: the step bound `stepBoundN c (chartBound c) + 1` is a 
                                  contains all of `t`'s: strictly more covered nonterminals.  So along every chain of
                                  same-span derivations the covering set grows strictly, the rank is `< RR c`, and the
                                  children of every admitted state are built in boundedly many rounds from finitely
-                                 many labels and leaves (`K`).  Invariant `Inv`, preserved by scan, predict,
+                                 many labels and leaves (`K`).  Invariant `TInv`, preserved by scan, predict,
                                  complete, the completions that end `predict` and the repetition shortcut
                                  (`step_inv`); pairwise different states with keys in a finite space: pigeonhole;
 * `C06_forest_terminates`        hence the machine of the code reaches `done`/`raised` within
@@ -52,6 +52,17 @@ no fuel in the statement: the step bound `stepBoundN c (chartBound c) + 1` is a 
   `C06_generated_variant_terminates`  the variant read from the source now is one the model has and FullStatement
                                  holds for it (a source that went back to the OLD admission rule makes this
                                  obligation fail — the check then reports F9 again);
+* `C06_parse_answer_total` / `C06_parse_is_total_function` / `C06_generated_parse_is_total_function`
+                                 **the parser model is a TOTAL FUNCTION, no fuel left free**: at the budget
+                                 `totalFuel c = stepBoundN c (chartBound c) + 1` `parseComplete` has an answer, every
+                                 larger budget returns the same answer, and a budget that returns anything returns it
+                                 (`Proofs/EarleyFuel.lean`: a stopped run is stable under more fuel).  Composed with
+                                 soundness and completeness — one Lean theorem each, possible since the name clash
+                                 between the C04 and C06 proof families was removed (`TInv`, `tinv_init`,
+                                 `Proofs/EarleyCols.lean`) —: `C04_total_parse_sound` (the answer's trees are valid and
+                                 tile the input), `C05_parse_total` (with a bounded regex oracle the answer is never an
+                                 exception), `C05_parse_decides_language` (the answer is non-empty IFF the word is in
+                                 the scanner-level language), `C05_roundtrip_total`;
 * `C06_cut_terminates_witnesses` the parser as it is now finishes on the design's witness `("a"?)* "b"` / "ab" and on
                                  four other grammars with a same-span self-derivation, with exactly the acyclic trees
                                  (`decide +kernel`); the cut does not reject the input;
@@ -61,16 +72,42 @@ no fuel in the statement: the step bound `stepBoundN c (chartBound c) + 1` is a 
                                  to the bound checked*: after 200, 400, 600 steps the machine is still running and the
                                  number of admitted states has grown each time.  Kept as the record of finding F9.
 
-NOT proved / not modelled: INCOMPLETE (prefix) mode is not modelled at all (only observed by the check: step meter on
-the real parser); the first-tree request is the forest run stopped early.  `chartBound` is a (huge, non-elementary
-looking) function of the configuration — it shows termination, not a useful complexity bound; the check's step
-budgets come from the model's own step count, not from it.  The tie of the model to /repo is the per-run
-correspondence of `harness/props/c06.py` (same states per column as the real parser, same forest) and the translator.
+PREFIX (INCOMPLETE) MODE — section "prefix mode" at the end of this file; model `Model/EarleyPrefix.lean` (one-shot
+`parse_forest(word, mode=INCOMPLETE)`: the incomplete states of `scan_bytes` / `scan_regex`, the end-of-input pass of
+`_consume` over the live last column with its forced completions of unfinished states, the covering sets of pairs
+`(nonterminal, finished?)`, `_incomplete`, the yield order, the final repetition shortcut):
+* `C06_prefix_terminates : PrefixStatement Variant.now`  for every grammar, input, both regex oracles, start symbol and
+                                 prediction order the prefix-mode machine reaches `done`/`raised` within `prefixBound pc`
+                                 steps, a function of the configuration (`C06_prefix_machine_terminates` for every rule
+                                 table / scanner / partial-match oracle; `C06_prefix_terminates_all_grammars` for every
+                                 variant with the policy of the code; `C06_prefix_generated_variant_terminates` for the
+                                 variant read from the source; `C06_prefix_answer`: `parsePrefix` has an answer);
+* `C06_prefix_last_column_bounded`  the covering cut bounds the forced completions: at most `capP pc` states in the last
+                                 column of the end-of-input phase (rank `lrP`, levels `KB`, pigeonhole —
+                                 `Proofs/EarleyPrefixK.lean`, `EarleyPrefixInv.lean`, `EarleyPrefixTerm.lean`);
+* `C06_prefix_cut_terminates_witnesses`  the left-recursive grammar of finding F32 on "ab" and `("a"?)* "b"` on "a":
+                                 concrete runs of the code as it is (`decide +kernel`);
+* `C06_old_prefix_left_recursion_diverges_example_partial`  OLD (before /repo 73e5ffe3; NOT true of the code as it is):
+                                 F32 — still running and growing after 200/400/600 steps.
+Differential only for prefix mode: that the model is the code (per run: the same states in every column, incomplete and
+force-completed ones included, the same yielded trees), the partial-match regex oracle (`regex` module), the one
+documented deviation of the model (an ordinary state admitted to the last column after an incomplete state with the same
+item and children: never observed, impossible for compiled grammars by a children-count argument that is not proved).
+
+NOT proved / not modelled: incremental feeding (`consume` called several times on one parse: an incomplete state that
+is continued), `starter_bit`, `hookin_parent`, computed repetitions; the first-tree request is the forest run stopped
+early.  `chartBound` / `capP` are (huge, non-elementary looking) functions of the configuration — they show
+termination, not a useful complexity bound; the check's step budgets come from the model's own step count, not from
+them.  The tie of the model to /repo is the per-run correspondence of `harness/props/c06.py` (same states per column as
+the real parser, same forest — COMPLETE and prefix mode) and the translator.
 -/
 import Model.Earley
 import Proofs.EarleyTerm
 import Proofs.EarleyGrow
 import Proofs.EarleyBound
+import Proofs.EarleyFuel
+import Model.EarleyPrefix
+import Proofs.EarleyPrefixTerm
 import Generated.Earley
 namespace FV.Earley
 
@@ -234,6 +271,57 @@ theorem C06_parse_terminates : FullStatement Variant.now :=
 theorem C06_generated_variant_terminates : ∃ v, Gen.variant = some v ∧ FullStatement v :=
   ⟨_, rfl, C06_forest_terminates_all_grammars _ rfl⟩
 
+/-! ### the parser model as a total function: the answer does not depend on the fuel -/
+
+/-- **the answer exists and is independent of the step budget**: for every configuration with the admission rule of
+    the code (any rule table, prediction order that only offers alternatives of the table, scanner that does not move
+    backwards), `parseComplete` has finished at `totalFuel c = stepBoundN c (chartBound c) + 1`; every larger budget
+    returns the same answer; every budget that returns an answer returns this one -/
+theorem C06_parse_answer_total (c : Cfg) (hs : Sane c) (hp : c.policy = .acyclic) :
+    ∃ r, parseComplete c (totalFuel c) = some r ∧
+      (∀ fuel, totalFuel c ≤ fuel → parseComplete c fuel = some r) ∧
+      (∀ fuel r', parseComplete c fuel = some r' → r' = r) :=
+  parse_total hs hp
+
+/-- the statement "the parser is a total function" for a variant of the code: every grammar, input, start symbol and
+    prediction order within the table -/
+def TotalStatement (v : Variant) : Prop :=
+  ∀ (G : Grammar) (inp : Input) (start : String) (pred : Nat → NT → List (List ESym)),
+    (∀ k x rhs, rhs ∈ pred k x → (x, rhs) ∈ compile G v.cap) →
+    ∃ r, parseComplete (mkCfg G v inp start pred) (totalFuel (mkCfg G v inp start pred)) = some r ∧
+      (∀ fuel, totalFuel (mkCfg G v inp start pred) ≤ fuel → parseComplete (mkCfg G v inp start pred) fuel = some r) ∧
+      (∀ fuel r', parseComplete (mkCfg G v inp start pred) fuel = some r' → r' = r)
+
+/-- **the parser as it is now is a total function** of grammar, input, start symbol and prediction order -/
+theorem C06_parse_is_total_function : TotalStatement Variant.now := by
+  intro G inp start pred hpred
+  exact C06_parse_answer_total _ (sane_mkCfg G Variant.now inp start pred hpred) rfl
+
+/-- … and so is the variant the translator read from the source now -/
+theorem C06_generated_parse_is_total_function : ∃ v, Gen.variant = some v ∧ TotalStatement v :=
+  ⟨_, rfl, fun G inp start pred hpred => C06_parse_answer_total _ (sane_mkCfg G _ inp start pred hpred) rfl⟩
+
+/-- the hypotheses of `C06_parse_answer_total` are met by the cyclic witness grammar `("a"?)* "b"` on "ab" (prediction
+    in table order); the run of the model that is over within 300 steps (`decide +kernel`) IS the answer at `totalFuel`
+    (which is far too large to run): exactly one tree -/
+example : ∃ ts, parseComplete (cfgOf (compile G0 none) Variant.now inAB "<start>")
+      (totalFuel (cfgOf (compile G0 none) Variant.now inAB "<start>")) = some (.ok ts) ∧ ts.length = 1 := by
+  obtain ⟨r, h1, _, h3⟩ := C06_parse_answer_total (cfgOf (compile G0 none) Variant.now inAB "<start>")
+    (sane_cfgOf _ _ _ _) rfl
+  have hrun : (match parseComplete (cfgOf (compile G0 none) Variant.now inAB "<start>") 300 with
+      | some (.ok ts) => ts.length
+      | _ => 0) = 1 := by decide +kernel
+  cases hr : parseComplete (cfgOf (compile G0 none) Variant.now inAB "<start>") 300 with
+  | none => rw [hr] at hrun; cases hrun
+  | some r' =>
+    cases r' with
+    | error e => rw [hr] at hrun; cases hrun
+    | ok l =>
+      rw [hr] at hrun
+      have := h3 300 _ hr
+      subst this
+      exact ⟨l, h1, hrun⟩
+
 /-- the parser as it is now (children in the admission test + the covering cut, the completing `predict`, the
     open-ended tail) on the design's witness and four other grammars with a same-span self-derivation: it finishes
     on "ab" within 200 steps with exactly the acyclic trees (1, 2, 1, 1, 3); the cut does not reject the input -/
@@ -269,6 +357,131 @@ theorem C06_old_admitImpl_diverges_example_partial :
     ∧ nAdmitted (runV G0 (Variant.old 20) 200) < nAdmitted (runV G0 (Variant.old 20) 400)
     ∧ nAdmitted (runV G0 (Variant.old 20) 400) < nAdmitted (runV G0 (Variant.old 20) 600)
     ∧ (runV G0 Variant.now 87).isDone = true := by
+  decide +kernel
+
+/-! ## prefix mode
+
+`parse_forest(word, mode=ParsingMode.INCOMPLETE)`, the machine `stepP` / `runP` / `parsePrefix` of
+`Model/EarleyPrefix.lean`: phase A builds the columns exactly as COMPLETE mode does (one `step` of the chart machine
+per step) and keeps the *incomplete* states (partial matches of a terminal against the rest of the input) of the last
+column aside; phase B is the end-of-input pass of `_consume`: every state of the live last column that has children
+is completed **as if it were finished** (forced completion), cut by the covering sets of /repo 73e5ffe3, whose
+entries are derivations `(nonterminal, finished?)`.  Finding F32 lived here: with left recursion at the end of the
+input the forced completions wrapped the result into itself again and again.
+
+FULL STATEMENT (all grammars, all finite inputs, both regex oracles, every start symbol and prediction order):
+`PrefixStatement v` below.  PROVED for the parser as it is: `C06_prefix_terminates : PrefixStatement Variant.now`, with
+the explicit step bound `prefixBound pc` (a function of the configuration), and `C06_prefix_generated_variant_terminates`
+for the variant the translator reads from the source.  The argument (`Proofs/EarleyPrefix*.lean`): phase A is the
+COMPLETE-mode machine, so `TInv` / `muN` of `Proofs/EarleyBound.lean` / `EarleyGrow.lean` apply; when phase B begins the
+children of every state are *atoms* (`K c (base c ncols)`, plus one partial leaf for the incomplete states); a forced
+completion builds the new state of the last column from a completed state `t` and an advanced state `s` that both
+have a strictly smaller rank `lrP` = (last − origin, number of derivations of the table in the covering set, dot): for
+`t` because its derivation is NOT in its own covering set (else `complete` returned at once) but IS in the new
+state's (same start), or because it starts later; so the children of every state of the last column lie in the finite
+level `KB pc (RRP c)`, the keys (item, children, incomplete?) are pairwise different (`Column.add`), pigeonhole:
+at most `capP pc` states (`C06_prefix_last_column_bounded`); the measure `muB` (free capacity, unvisited states, rest
+of the active `complete` loop) drops with every step.
+
+What rests on the differential check only: that `Model/EarleyPrefix.lean` is the code (per run: same states in every
+column incl. the incomplete and the force-completed ones, same yielded trees), the two regex oracles, and the one
+documented deviation (an ordinary state admitted after an incomplete one with the same item and children).  -/
+
+/-- the full statement of C06 for prefix mode, for a variant of the parser -/
+def PrefixStatement (v : Variant) : Prop :=
+  ∀ (G : Grammar) (pi : PInput) (start : String) (pred : Nat → NT → List (List ESym)),
+    (∀ k x rhs, rhs ∈ pred k x → (x, rhs) ∈ compile G v.cap) →
+    ∃ pm', runP (mkPCfg G v pi start pred) (prefixBound (mkPCfg G v pi start pred))
+              (PM.init (mkPCfg G v pi start pred)) = .done pm'
+         ∨ runP (mkPCfg G v pi start pred) (prefixBound (mkPCfg G v pi start pred))
+              (PM.init (mkPCfg G v pi start pred)) = .raised pm'
+
+/-- **the prefix-mode machine of the code stops**: `done` or `raised` (`IndexError`) within `prefixBound pc` steps — every
+    rule table (nullable, cyclic, left/right recursive), input, prediction order that only offers alternatives of the
+    table, scanner that does not move backwards, ANY partial-match oracle -/
+theorem C06_prefix_machine_terminates (pc : PCfg) (hs : Sane pc.c) (hp : pc.c.policy = .acyclic) :
+    ∃ pm', runP pc (prefixBound pc) (PM.init pc) = .done pm' ∨ runP pc (prefixBound pc) (PM.init pc) = .raised pm' :=
+  prefix_terminates hs hp
+
+/-- **the forced completions are bounded by the covering cut**: in every reachable state of the prefix-mode machine the
+    last column of the end-of-input phase holds at most `capP pc` states -/
+theorem C06_prefix_last_column_bounded (pc : PCfg) (hs : Sane pc.c) (hp : pc.c.policy = .acyclic) (n : Nat) (pm : PM)
+    (h : runP pc n (PM.init pc) = .next pm) : pm.last.length ≤ capP pc :=
+  runP_last_bounded hs hp n _ pm (Or.inl (invA_init hp)) h
+
+/-- **PrefixStatement for the admission rule of the code**: every grammar, every variant of compilation / scanner /
+    `predict` with the policy `acyclic`, every input, start symbol and prediction order -/
+theorem C06_prefix_terminates_all_grammars (v : Variant) (hp : v.policy = .acyclic) : PrefixStatement v := by
+  intro G pi start pred hpred
+  exact C06_prefix_machine_terminates (mkPCfg G v pi start pred) (sane_mkCfg G v pi.inp start pred hpred) hp
+
+/-- **a prefix parse with the parser as it is now terminates** on every grammar and every finite input -/
+theorem C06_prefix_terminates : PrefixStatement Variant.now :=
+  C06_prefix_terminates_all_grammars Variant.now rfl
+
+/-- the variant the translator read from the source *now*: the prefix statement holds for it -/
+theorem C06_prefix_generated_variant_terminates : ∃ v, Gen.variant = some v ∧ PrefixStatement v :=
+  ⟨_, rfl, C06_prefix_terminates_all_grammars _ rfl⟩
+
+/-- hence `parsePrefix` has an answer at the fuel `prefixBound pc`: a list of partial trees or the exception -/
+theorem C06_prefix_answer (pc : PCfg) (hs : Sane pc.c) (hp : pc.c.policy = .acyclic) :
+    ∃ r, parsePrefix pc (prefixBound pc) = some r := by
+  obtain ⟨pm', h | h⟩ := C06_prefix_machine_terminates pc hs hp
+  · exact ⟨_, by unfold parsePrefix; rw [h]⟩
+  · exact ⟨_, by unfold parsePrefix; rw [h]⟩
+
+/-- `<start> ::= <a> ; <a> ::= <a> "b" | "a"`: left recursion — the grammar of finding F32 -/
+def G5 : Grammar := { rules := [("<start>", .nt "<a>" none none),
+  ("<a>", .alt "d" [.cat "e" [.nt "<a>" none none, litB], .term (.lit (.text [97]))])] }
+def pinAB : PInput := { inp := inAB, rinc := fun _ _ => false }
+/-- the input "a" -/
+def pinA : PInput := { inp := { isBytes := false, cells := [97], rlen := fun _ _ => none }, rinc := fun _ _ => false }
+def pcfgV (G : Grammar) (v : Variant) (pi : PInput) : PCfg := mkPCfg G v pi "<start>" (predDefault G v.cap)
+def PRes.pm : PRes → PM
+  | .next pm => pm
+  | .done pm => pm
+  | .raised pm => pm
+def PRes.isDone : PRes → Bool
+  | .done _ => true
+  | _ => false
+def PRes.running : PRes → Bool
+  | .next _ => true
+  | _ => false
+def runPV (G : Grammar) (v : Variant) (pi : PInput) (n : Nat) : PRes := runP (pcfgV G v pi) n (PM.init (pcfgV G v pi))
+
+/-- the prefix-mode machine for a compiled rule table, prediction in table order -/
+def pcfgOf (rules : List CRule) (v : Variant) (pi : PInput) (start : String) : PCfg :=
+  { c := cfgOf rules v pi.inp start, iscan := iscanV v pi }
+
+/-- the hypotheses of `C06_prefix_machine_terminates` / `C06_prefix_last_column_bounded` are met by every compiled
+    grammar on every input, in particular by the left-recursive grammar of F32 (inside the divergence class
+    `hasLeftCycle` of prefix parses) with the machine of the code as it is now -/
+example : Sane (pcfgOf (compile G5 none) Variant.now pinAB "<start>").c
+    ∧ (pcfgOf (compile G5 none) Variant.now pinAB "<start>").c.policy = .acyclic
+    ∧ hasLeftCycle (compile G5 none) = true :=
+  ⟨sane_cfgOf _ _ _ _, rfl, by decide +kernel⟩
+
+/-- the parser as it is now in prefix mode: on the left-recursive grammar of F32 and "ab" it is over within 80 steps
+    with 7 states in the last column, the complete tree and one partial tree (the forced completion of the
+    left-recursive rule is cut); on `("a"?)* "b"` / "a" (an empty-deriving body under a repetition AND an input that
+    ends early) within 1000 steps with three partial trees -/
+theorem C06_prefix_cut_terminates_witnesses :
+    (runPV G5 Variant.now pinAB 80).isDone = true ∧ (runPV G5 Variant.now pinAB 80).pm.last.length = 7
+    ∧ (runPV G5 Variant.now pinAB 80).pm.m.out.length = 1 ∧ (runPV G5 Variant.now pinAB 80).pm.out.length = 1
+    ∧ (runPV G0 Variant.now pinA 1000).isDone = true ∧ (runPV G0 Variant.now pinA 1000).pm.out.length = 3
+    ∧ (runPV G0 Variant.now pinA 1000).pm.m.out.length = 0 := by
+  decide +kernel
+
+/-- OLD — about the code BEFORE /repo 73e5ffe3 (`Variant.old`: no covering cut), NOT about the code as it is: finding
+    F32.  On the left-recursive grammar and "ab" the prefix-mode machine is still running after 200, 400 and 600 steps,
+    the last column and the number of yielded partial trees growing every time (finite witness, `decide +kernel`;
+    partial: the statement for all n is not proved).  With the cut (`Variant.now`) the same run is over after 80. -/
+theorem C06_old_prefix_left_recursion_diverges_example_partial :
+    (runPV G5 (Variant.old 20) pinAB 600).running = true
+    ∧ (runPV G5 (Variant.old 20) pinAB 200).pm.last.length < (runPV G5 (Variant.old 20) pinAB 400).pm.last.length
+    ∧ (runPV G5 (Variant.old 20) pinAB 400).pm.last.length < (runPV G5 (Variant.old 20) pinAB 600).pm.last.length
+    ∧ (runPV G5 (Variant.old 20) pinAB 200).pm.out.length < (runPV G5 (Variant.old 20) pinAB 600).pm.out.length
+    ∧ (runPV G5 Variant.now pinAB 80).isDone = true := by
   decide +kernel
 
 end FV.Earley
